@@ -561,7 +561,11 @@ theorem step_execStmt_input (ih : AllTri f) (top : Bool) (t : Tok) (r : Ref)
         | diag d =>
           dsimp only
           split
-          · refine Run.ro hW1 hE1' (ro_isIdentifierType hW1 vt) fun c _ => ?_
+          · refine Run.get_bind ?_
+            split
+            rotate_left
+            · exact Run.throw hW1 hE1' hnr.ok
+            refine Run.ro hW1 hE1' (ro_isIdentifierType hW1 vt) fun c _ => ?_
             split
             · exact Run.throw hW1 hE1' hnr.ok
             · refine Run.get_bind' ?_
